@@ -355,6 +355,10 @@ def load_corpus(pid):
 # number.  The model sees the numbers only, so a library path that depends on the form (a dtype table, a
 # difference that wraps around, a write into the caller's buffer, a fast path for contiguous data) shows up as
 # a mismatch whose replay carries ``_spell``.  The harness modules get ``NP`` as their ``np``.
+# "configuration twins": the operations of these properties are defined with the trapezoid rule (or do not
+# integrate at all), whatever synphot.conf.default_integrator says; 6 % of their cases are evaluated once more with
+# that configuration item at its other value, and must come out the same
+CONF_TWIN_PIDS = {'C01', 'C02', 'C03', 'C05', 'C06', 'C07', 'C08', 'C10', 'C11', 'C13', 'C17'}
 SPELL = None
 SPELLS = ['be', 'strided', 'readonly', 'int', 'uint']
 
@@ -460,11 +464,23 @@ def run_cases(rep, cases, impl_fn, model_fn=None, oracle_fn=None, rtol=1e-9, ato
         for c in cases:
             if isinstance(c, dict) and '_decoy' not in c and '_spell' not in c and not ({'fname', 'path', 'file', '_nospell'} & set(c)) and rng2.random() < 0.06:
                 extra.append(dict(c, _spell=rng2.choice(SPELLS)))
+    if len(cases) > 8 and rep.pid in CONF_TWIN_PIDS and not os.environ.get('VERIF_NOCONF'):
+        rng3 = rep.rng('conf')
+        for c in cases:
+            if isinstance(c, dict) and not ({'_decoy', '_spell', '_conf', '_noconf', 'fname', 'path', 'file'} & set(c)) and rng3.random() < 0.06:
+                extra.append(dict(c, _conf={'default_integrator': 'analytical'}))
     cases += extra
     inner = impl_fn
 
     def impl_fn(c, inner=inner):        # noqa: F811
         global SPELL
+        if isinstance(c, dict) and '_conf' in c:
+            from synphot import conf
+            import contextlib
+            with contextlib.ExitStack() as st:
+                for k, v in c['_conf'].items():
+                    st.enter_context(conf.set_temp(k, v))
+                return inner({k: v for k, v in c.items() if k != '_conf'})
         if isinstance(c, dict) and '_spell' in c:
             SPELL = c['_spell']
             try:
@@ -481,7 +497,7 @@ def run_cases(rep, cases, impl_fn, model_fn=None, oracle_fn=None, rtol=1e-9, ato
     impl = pmap(impl_fn, cases)
     mcases, midx = [], []
     for i, c in enumerate(cases):
-        cm = {k: v for k, v in c.items() if k not in ('_decoy', '_spell')} if isinstance(c, dict) else c
+        cm = {k: v for k, v in c.items() if k not in ('_decoy', '_spell', '_conf')} if isinstance(c, dict) else c
         mc = model_fn(cm) if model_fn else cm
         if mc is not None:
             mcases.append(mc)
